@@ -172,13 +172,13 @@ pub fn c08(tier: Tier) -> i32 {
             let mut v = Vec::new();
             for a in 0..4u8 {
                 for b in 0..4u8 {
-                    for c in 0..2u8 {
-                        if a | b | c != 0 {
-                            v.push(vec![a, b, c, 0]);
-                        }
+                    if a | b != 0 {
+                        v.push(vec![a, b, 0, 0]);
                     }
                 }
             }
+            v.push(vec![0, 0, 1, 0]);
+            v.push(vec![1, 0, 2, 0]);
             v
         }
     };
